@@ -43,8 +43,10 @@ let run_case (c : case) : string =
           let idem = (match syncir_run syncir_wr v hs_empty prog (syncir_rewind st2 []) with
             | Ok st3 -> if syncir_output st3 = o1 then "1" else "0"
             | _ -> "F") in
+          (* fields of the object just read that the write altered (reference-array compaction excluded) *)
+          let (ai, (az, ab)) = syncir_altered prog st st2 in
           "M=consumed=" ^ (if consumed then "1" else "0") ^ " nlog=" ^ str_of_n (syncir_nlog st) ^ " rtrace=" ^ rtrace ^ " wtrace=" ^ str_tr (syncir_transfers st2)
-          ^ " idem=" ^ idem ^ " out=" ^ hex_of_bytes o1
+          ^ " idem=" ^ idem ^ " alt_i=" ^ str_tr ai ^ " alt_s=" ^ str_tr az ^ " alt_b=" ^ str_tr ab ^ " out=" ^ hex_of_bytes o1
         | Fault -> "M=WFAULT rtrace=" ^ rtrace
         | OutOfFuel -> "M=WOUTOFFUEL")
      | Fault -> "M=RFAULT"
